@@ -67,9 +67,17 @@ inductive MkRes where
   | errLoadCert
   deriving DecidableEq, Repr
 
+/-- `requireCert && (cfg.Cert == "" || cfg.Key == "") && !cfg.DebugUseTempCert` (tied to the source by translation,
+    `Lemmas/TranslatedC17.lean`) -/
+@[simp] def missingCert (requireCert certEmpty keyEmpty debugUseTempCert : Bool) : Bool :=
+  requireCert && (certEmpty || keyEmpty) && !debugUseTempCert
+
+/-- `len(cfg.Key) > 0 && len(cfg.Cert) > 0` -/
+@[simp] def hasKeyPair (keySet certSet : Bool) : Bool := keySet && certSet
+
 /-- `makeTlsConfig(cfg, requireCert)`, statement for statement -/
 def makeTlsConfig (cfg : TlsConfig) (requireCert : Bool) : MkRes :=
-  if requireCert && (cfg.cert.isEmpty || cfg.key.isEmpty) && !cfg.debugUseTempCert then .errMissingCert
+  if missingCert requireCert cfg.cert.isEmpty cfg.key.isEmpty cfg.debugUseTempCert then .errMissingCert
   else
     -- c.InsecureSkipVerify = cfg.InsecureSkipVerify
     let insecure := cfg.insecureSkipVerify
@@ -85,7 +93,7 @@ def makeTlsConfig (cfg : TlsConfig) (requireCert : Bool) : MkRes :=
       -- if cfg.VerifyClientCert { c.ClientAuth = tls.RequireAndVerifyClientCert }
       let auth := if cfg.verifyClientCert then ClientAuth.requireAndVerifyClientCert else .noClientCert
       if cfg.debugUseTempCert then .ok ⟨insecure, root, client, auth, .temp, none⟩
-      else if !cfg.key.isEmpty && !cfg.cert.isEmpty then
+      else if hasKeyPair (!cfg.key.isEmpty) (!cfg.cert.isEmpty) then
         match cfg.cert, cfg.key with
         | .good i, .good j => if i = j then .ok ⟨insecure, root, client, auth, .file i, none⟩ else .errLoadCert
         | _, _ => .errLoadCert
